@@ -443,3 +443,90 @@ pub fn cones_mul_hs(cones: &mut crate::solver::core::cones::CompositeCone<f64>, 
     cones.mul_Hs(&mut y, x, &mut work);
     y
 }
+
+/// Results of the operator battery of one symmetric cone scaled at (s, z); see `sym_cone_battery`.
+#[derive(Clone, Debug, Default)]
+pub struct SymBattery {
+    pub scaled_ok: bool,
+    pub wz: Vec<f64>,         // W z
+    pub wits: Vec<f64>,       // W^{-T} s
+    pub wtwz: Vec<f64>,       // W^T (W z)
+    pub w_winv_x: Vec<f64>,   // W (W^{-1} x)
+    pub winv_w_x: Vec<f64>,   // W^{-1} (W x)
+    pub wt_winvt_x: Vec<f64>, // W^T (W^{-T} x)
+    pub wx: Vec<f64>,         // W x
+    pub wty: Vec<f64>,        // W^T y
+    pub winvx: Vec<f64>,      // W^{-1} x
+    pub winvty: Vec<f64>,     // W^{-T} y
+    pub x_circ_y: Vec<f64>,   // x o y
+    pub y_circ_x: Vec<f64>,   // y o x
+    pub y_inv_circ: Vec<f64>, // u with  y o u = x   (only when y is interior; else empty)
+    pub lam_circ_lam: Vec<f64>, // affine_ds
+    pub lam_inv_x: Vec<f64>,  // u with  lambda o u = x
+    pub hs_x: Vec<f64>,       // mul_Hs x
+    pub hs_block: Vec<f64>,   // get_Hs (diagonal or packed upper triangle, as the cone stores it)
+    pub hs_is_diagonal: bool,
+    pub shift: Vec<f64>,      // combined_ds_shift(step_z = x, step_s = y, sigma_mu)
+    pub offset: Vec<f64>,     // Δs_from_Δz_offset(ds = x)
+}
+
+/// Evaluate every scaling / Jordan-algebra operation of one symmetric cone (nonnegative, second-order, PSD triangle) at the
+/// Nesterov-Todd point of (s, z).  `y_interior`: y is an interior point (the general Jordan division is evaluated).
+pub fn sym_cone_battery(
+    cone: &crate::solver::SupportedConeT<f64>,
+    s: &[f64],
+    z: &[f64],
+    x: &[f64],
+    y: &[f64],
+    sigma_mu: f64,
+    y_interior: bool,
+) -> SymBattery {
+    use crate::algebra::MatrixShape;
+    use crate::solver::core::cones::*;
+    use crate::solver::core::ScalingStrategy;
+    let n = s.len();
+    let mut out = SymBattery::default();
+    macro_rules! run {
+        ($c:expr) => {{
+            let c = $c;
+            out.scaled_ok = c.update_scaling(s, z, 1.0, ScalingStrategy::PrimalDual);
+            let mut v = |f: &mut dyn FnMut(&mut [f64])| -> Vec<f64> { let mut o = vec![0.0; n]; f(&mut o); o };
+            out.wz = v(&mut |o| c.mul_W(MatrixShape::N, o, z, 1.0, 0.0));
+            out.wits = v(&mut |o| c.mul_Winv(MatrixShape::T, o, s, 1.0, 0.0));
+            let wz = out.wz.clone();
+            out.wtwz = v(&mut |o| c.mul_W(MatrixShape::T, o, &wz, 1.0, 0.0));
+            out.wx = v(&mut |o| c.mul_W(MatrixShape::N, o, x, 1.0, 0.0));
+            out.wty = v(&mut |o| c.mul_W(MatrixShape::T, o, y, 1.0, 0.0));
+            out.winvx = v(&mut |o| c.mul_Winv(MatrixShape::N, o, x, 1.0, 0.0));
+            out.winvty = v(&mut |o| c.mul_Winv(MatrixShape::T, o, y, 1.0, 0.0));
+            let (wx, winvx) = (out.wx.clone(), out.winvx.clone());
+            out.w_winv_x = v(&mut |o| c.mul_W(MatrixShape::N, o, &winvx, 1.0, 0.0));
+            out.winv_w_x = v(&mut |o| c.mul_Winv(MatrixShape::N, o, &wx, 1.0, 0.0));
+            let winvtx = v(&mut |o| c.mul_Winv(MatrixShape::T, o, x, 1.0, 0.0));
+            out.wt_winvt_x = v(&mut |o| c.mul_W(MatrixShape::T, o, &winvtx, 1.0, 0.0));
+            out.x_circ_y = v(&mut |o| c.circ_op(o, x, y));
+            out.y_circ_x = v(&mut |o| c.circ_op(o, y, x));
+            if y_interior {
+                out.y_inv_circ = v(&mut |o| c.inv_circ_op(o, y, x));
+            }
+            out.lam_circ_lam = v(&mut |o| c.affine_ds(o, s));
+            out.lam_inv_x = v(&mut |o| c.λ_inv_circ_op(o, x));
+            out.hs_x = v(&mut |o| { let mut w = vec![0.0; n]; c.mul_Hs(o, x, &mut w) });
+            out.hs_is_diagonal = c.Hs_is_diagonal();
+            let nb = if out.hs_is_diagonal { n } else { n * (n + 1) / 2 };
+            let mut blk = vec![0.0; nb];
+            c.get_Hs(&mut blk);
+            out.hs_block = blk;
+            out.shift = v(&mut |o| { let (mut sz, mut ss) = (x.to_vec(), y.to_vec()); c.combined_ds_shift(o, &mut sz, &mut ss, sigma_mu) });
+            out.offset = v(&mut |o| { let mut w = vec![0.0; n]; c.Δs_from_Δz_offset(o, x, &mut w, z) });
+        }};
+    }
+    match make_cone(cone) {
+        SupportedCone::NonnegativeCone(mut c) => run!(&mut c),
+        SupportedCone::SecondOrderCone(mut c) => run!(&mut c),
+        #[cfg(feature = "sdp")]
+        SupportedCone::PSDTriangleCone(mut c) => run!(&mut c),
+        _ => {}
+    }
+    out
+}
